@@ -199,8 +199,9 @@ Proof.
 Qed.
 
 (* ---- kitty keys: CSI code u / CSI code ; 1+mods u ---- *)
+Definition ALTS : pat := PStar (PSeq (PLit [58]) (PStar D)).
 Definition pat_kitty : pat :=
-  PSeq (PLit [27; 91]) (PSeq NUM (PSeq (POpt (PSeq (PLit [59]) NUM)) (PLit [117]))).
+  PSeq (PLit [27; 91]) (PSeq (PSeq NUM ALTS) (PSeq (POpt (PSeq (PLit [59]) NUM)) (PLit [117]))).
 Lemma check_kitty : family_check event_dfa pat_kitty (fam_good 6) = true.
 Proof. vm_compute. reflexivity. Qed.
 
@@ -251,10 +252,46 @@ Qed.
 Lemma mod_from_bits_small : sweep1 256 (fun m => mod_from_bits m =? m) = true.
 Proof. vm_compute. reflexivity. Qed.
 
-Theorem single_kitty k mods :
-  wf decmode_all prod_key_table (RKittyKey k mods) = true -> single (RKittyKey k mods).
+Lemma not_in_app {A} (x : A) a b : ~ In x a -> ~ In x b -> ~ In x (a ++ b).
+Proof. intros Ha Hb H. apply in_app_or in H. tauto. Qed.
+
+(* the key-code field with its alternates *)
+Lemma alts_match alts : matches ALTS (kitty_alts alts).
 Proof.
-  cbn [wf]. intros Hwf. apply andb_true_iff in Hwf. destruct Hwf as [Hmods Hk].
+  unfold ALTS, kitty_alts. induction alts as [|a l IH]; [apply MStarN|]. cbn [flat_map].
+  apply MStarS; [|exact IH].
+  apply (matches_seq_lit [58]). destruct a as [x|]; [|apply MStarN].
+  apply star_digits, digits_all_digits.
+Qed.
+
+Lemma alts_no59 alts : ~ In 59 (kitty_alts alts).
+Proof.
+  unfold kitty_alts. induction alts as [|a l IH]; [intros []|]. cbn [flat_map]. intros [E|Hin]; [discriminate|].
+  apply in_app_or in Hin. destruct Hin as [Hin|Hin]; [|exact (IH Hin)].
+  destruct a as [x|]; [exact (no59 x Hin)| exact Hin].
+Qed.
+
+Lemma alts_head alts : kitty_alts alts = [] \/ exists r, kitty_alts alts = 58 :: r.
+Proof. destruct alts as [|a l]; [left; reflexivity| right; cbn [kitty_alts flat_map]; eexists; reflexivity]. Qed.
+
+Lemma codes_first code alts :
+  match numbers_decode (digits code ++ kitty_alts alts) 58 with c :: _ => c | [] => 1 end = code.
+Proof.
+  unfold numbers_decode. destruct (alts_head alts) as [->|[r ->]].
+  - rewrite app_nil_r, split_on_nosep by apply no58. cbn [filter_map]. rewrite number_decode_digits. reflexivity.
+  - rewrite split_on_app by apply no58. cbn [filter_map]. rewrite number_decode_digits. reflexivity.
+Qed.
+
+Lemma codes_not63 code alts r : digits code ++ kitty_alts alts <> 63 :: r.
+Proof.
+  destruct (digits code) as [|d l] eqn:Ed; [exfalso; eapply digits_nonempty; exact Ed|].
+  cbn [app]. intros E. inversion E; subst. eapply digits_head_not63; exact Ed.
+Qed.
+
+Theorem single_kitty k mods alts :
+  wf decmode_all prod_key_table (RKittyKey k mods alts) = true -> single (RKittyKey k mods alts).
+Proof.
+  cbn [wf]. intros Hwf. rewrite !andb_true_iff in Hwf. destruct Hwf as [[Hmods _] Hk].
   assert (Hk' : match k with
                 | KEsc | KEnter | KTab | KBackspace => True
                 | KF n => 13 <= n <= 35
@@ -267,32 +304,37 @@ Proof.
     replace ((13 <=? n) && (n <=? 35)) with true by lia. eexists; reflexivity. }
   destruct Hcode as [code Hcode]. pose proof (keyboard_key_code k code Hk' Hcode) as Hkey.
   unfold single, prod_denote, denote. cbn [print]. rewrite Hcode.
+  set (codes := digits code ++ kitty_alts alts).
+  assert (Hc59 : ~ In 59 codes) by (unfold codes; apply not_in_app; [apply no59| apply alts_no59]).
+  assert (Hcm : matches (PSeq NUM ALTS) codes) by (unfold codes; apply MSeq; [apply matches_num| apply alts_match]).
   destruct (mods =? 0) eqn:Em.
   - apply N.eqb_eq in Em. subst mods.
-    replace (CSI ++ digits code ++ [] ++ [117]) with ([27; 91] ++ digits code ++ [117]) by reflexivity.
+    replace (CSI ++ codes ++ [] ++ [117]) with ([27; 91] ++ codes ++ [117]) by reflexivity.
     fam_tac check_kitty; [| discriminate |].
-    + unfold pat_kitty. apply matches_seq_lit. apply MSeq; [apply matches_num|].
+    + unfold pat_kitty. apply matches_seq_lit. apply MSeq; [exact Hcm|].
       change [117] with ([] ++ [117]). apply MSeq; [apply MOptN| apply MLit].
     + payload_unfold. unfold dec_kitty_keyboard. rewrite (sl_mid [27; 91] _ [117]).
-      rewrite (kk_not_level (digits code)) by (intros r0; apply digits_head_not63).
+      rewrite (kk_not_level codes) by (intros r0; apply codes_not63).
       unfold kitty_key_fields.
-      rewrite split_on_nosep by apply no59.
-      unfold numbers_decode. rewrite split_on_nosep by apply no58. cbn [filter_map].
-      rewrite number_decode_digits, Hkey. reflexivity.
-  - replace (CSI ++ digits code ++ ([59] ++ digits (mods + 1)) ++ [117])
-      with ([27; 91] ++ (digits code ++ [59] ++ digits (mods + 1)) ++ [117])
+      rewrite split_on_nosep by exact Hc59.
+      unfold codes. rewrite codes_first, Hkey. reflexivity.
+  - replace (CSI ++ codes ++ ([59] ++ digits (mods + 1)) ++ [117])
+      with ([27; 91] ++ (codes ++ [59] ++ digits (mods + 1)) ++ [117])
       by list_eq.
     fam_tac check_kitty; [| discriminate |].
-    + unfold pat_kitty. apply matches_seq_lit. rewrite <- !app_assoc. apply MSeq; [apply matches_num|].
+    + unfold pat_kitty. apply matches_seq_lit. rewrite <- !app_assoc.
+      apply MSeq; [exact Hcm|].
       rewrite app_assoc. apply MSeq; [apply MOptS, matches_seq_lit, matches_num| apply MLit].
     + payload_unfold. unfold dec_kitty_keyboard. rewrite (sl_mid [27; 91] _ [117]).
-      rewrite (kk_not_level (digits code ++ [59] ++ digits (mods + 1))).
-      2:{ intros r0 E. destruct (digits code) as [|d r] eqn:Ed; [exfalso; eapply digits_nonempty; exact Ed|].
-          cbn [app] in E. inversion E; subst. eapply digits_head_not63; exact Ed. }
+      rewrite (kk_not_level (codes ++ [59] ++ digits (mods + 1))).
+      2:{ intros r0 E. unfold codes in E. rewrite <- app_assoc in E. revert E.
+          destruct (digits code) as [|d r] eqn:Ed; [exfalso; eapply digits_nonempty; exact Ed|].
+          cbn [app]. intros E. inversion E; subst. eapply digits_head_not63; exact Ed. }
       unfold kitty_key_fields. cbn [app].
-      rewrite split_on_app by apply no59. rewrite split_on_nosep by apply no59.
-      unfold numbers_decode. rewrite !split_on_nosep by apply no58. cbn [filter_map].
-      rewrite !number_decode_digits, Hkey.
+      rewrite split_on_app by exact Hc59. rewrite split_on_nosep by apply no59.
+      unfold codes at 1. rewrite codes_first, Hkey.
+      unfold numbers_decode. rewrite split_on_nosep by apply no58. cbn [filter_map].
+      rewrite number_decode_digits.
       replace (1 <? mods + 1) with true by lia. replace (mods + 1 - 1) with mods by lia.
       pose proof (sweep1_sound 256 _ mod_from_bits_small mods ltac:(lia)) as Hmb. cbv beta in Hmb.
       apply N.eqb_eq in Hmb. cbn zeta. rewrite Hmb. reflexivity.
